@@ -296,6 +296,37 @@ func c19Witnesses(u c19Uni) [][]c19Op {
 	}
 }
 
+// c19OogOps: the calls of part (1b); each is outside the F08 guard in some reachable state.
+func c19OogOps(u c19Uni) []c19Op {
+	var out []c19Op
+	pts := []string{"g", "p"}
+	if u.conf.Name == "rbac" {
+		pts = append(pts, "g2")
+	}
+	for _, pt := range pts {
+		R := u.rules[pt]
+		rs := func(is ...int) [][]string {
+			var o [][]string
+			for _, i := range is {
+				o = append(o, R[i])
+			}
+			return o
+		}
+		out = append(out,
+			c19Op{Kind: "update", Pt: pt, R1: rs(0), R2: rs(0)},           // identity
+			c19Op{Kind: "update", Pt: pt, R1: rs(1), R2: rs(1)},           // identity
+			c19Op{Kind: "update", Pt: pt, R1: rs(0), R2: rs(1)},           // onto a listed rule
+			c19Op{Kind: "update", Pt: pt, R1: rs(2), R2: rs(0)},           // onto a listed rule
+			c19Op{Kind: "updatemany", Pt: pt, R1: rs(0, 1), R2: rs(1, 2)}, // chain: new[0] = old[1]
+			c19Op{Kind: "updatemany", Pt: pt, R1: rs(0, 1), R2: rs(1, 0)}, // swap
+			c19Op{Kind: "updatemany", Pt: pt, R1: rs(0, 1), R2: rs(0, 1)}, // identity batch
+			c19Op{Kind: "updatemany", Pt: pt, R1: rs(1), R2: rs(1)},       // identity batch of one
+			c19Op{Kind: "updatemany", Pt: pt, R1: rs(0, 2), R2: rs(3, 3)}, // both onto one new rule
+			c19Op{Kind: "updatemany", Pt: pt, R1: rs(2, 0), R2: rs(2, 3)}) // identity + ordinary
+	}
+	return out
+}
+
 // c19Guard: the call is inside the guards of the theorems, given the rules listed now.
 //
 //	update:     the old rule is not listed (no-op) or the new rule is not listed, and old != new (F08)
@@ -329,6 +360,7 @@ func c19Guard(listed [][]string, o c19Op) bool {
 type c19Step struct {
 	Op   c19Op
 	Bits []bool // persist answer per replica
+	Oog  bool   // the call is outside the F08 guard in the state it is applied to
 }
 
 func c19LogSx(steps []c19Step) string {
@@ -368,9 +400,21 @@ func c19Run(c *Ctx, id string, u c19Uni, steps []c19Step, from int, agree bool, 
 	if digest {
 		defer func() { c.Obs(id, "all", fmt.Sprintf("%x", sum.Sum(nil))) }()
 	}
+	// F08 (known): outside the guard the listing may hold a rule twice or lose its index entry;
+	// "affected is exact" and "a repeated call reports nothing" are known to fail from then on.
+	// The model follows the code there, so the log stays in the correspondence stream (and the
+	// replica-agreement / persist-only-if-asked / failed-persist predicates, which do not depend
+	// on the guard, stay on); the two F08-sensitive predicates stop at the first such call.
+	tainted := false
 	for k, st := range steps {
 		o := st.Op
 		c.Count(o.Kind)
+		if st.Oog {
+			if !tainted {
+				c.Count("outside-F08-guard(correspondence only)")
+			}
+			tainted = true
+		}
 		if k < from { // a prefix that shorter logs of the enumeration have observed already
 			for i, r := range reps {
 				r.apply(o, st.Bits[i])
@@ -443,7 +487,7 @@ func c19Run(c *Ctx, id string, u c19Uni, steps []c19Step, from int, agree bool, 
 					c.Direct(id, fmt.Sprintf("replicas 0 and %d disagree after step %d (result, listed rules, links or decisions)", i, k), replay())
 				}
 				// a repeated call reports nothing and changes nothing
-				if k > 0 && steps[k-1].Op.Sx() == o.Sx() && o.Pt != "p9" {
+				if !tainted && k > 0 && steps[k-1].Op.Sx() == o.Sx() && o.Pt != "p9" {
 					nothing := res == "aff= ok" || res == "flag=0 ok" || (o.Kind == "clear" && res == "ok")
 					if !nothing || after.listed != before[i].listed || after.dec != before[i].dec ||
 						strings.Join(after.links, "#") != strings.Join(before[i].links, "#") {
@@ -453,7 +497,7 @@ func c19Run(c *Ctx, id string, u c19Uni, steps []c19Step, from int, agree bool, 
 			}
 		}
 		// the affected list is exactly what was added / removed (replica 0)
-		if agree && (o.Kind == "add" || o.Kind == "remove") && reps[0].M.Conf.Def(o.Pt) != nil {
+		if agree && !tainted && (o.Kind == "add" || o.Kind == "remove") && reps[0].M.Conf.Def(o.Pt) != nil {
 			after0 := reps[0].listedOf(o.Pt)
 			var want, wantAfter [][]string
 			if o.Kind == "add" {
@@ -527,6 +571,20 @@ func c19RandomOp(c *Ctx, u c19Uni, withFiltered bool) c19Op {
 		if c.Rng.Intn(6) == 0 { // a repeated old rule: the second pair is refused and the batch rolled back
 			os[n-1] = os[0]
 		}
+		switch c.Rng.Intn(6) {
+		case 0: // overlapping: the new rules are the old ones rotated / shifted (outside the F08 guard when listed)
+			for i := range ns {
+				ns[i] = os[(i+1)%n]
+			}
+		case 1: // identity batch
+			for i := range ns {
+				ns[i] = os[i]
+			}
+		case 2: // any new rules, listed or not, repeated or not
+			for i := range ns {
+				ns[i] = R[c.Rng.Intn(len(R))]
+			}
+		}
 		return c19Op{Kind: "updatemany", Pt: pt, R1: os, R2: ns}
 	case x < 96:
 		return c19Op{Kind: "clear"}
@@ -543,7 +601,12 @@ func c19RandomOp(c *Ctx, u c19Uni, withFiltered bool) c19Op {
 }
 
 // c19RandomLog draws a log inside the guards by running it on a scratch replica.
-func c19RandomLog(c *Ctx, u c19Uni, maxLen int, nrep int, withFiltered bool, withFailures bool) []c19Step {
+//
+// allowOog: a call outside the F08 guard (update onto a listed rule, identity update, overlapping
+// batch update) is kept half of the time and marked; the log goes on behind it (the model follows
+// the code there).  Batch updates outside the guard are limited to two pairs: a refused longer
+// batch is rolled back by iterating a Go map, whose order matters once the pairs overlap.
+func c19RandomLog(c *Ctx, u c19Uni, maxLen int, nrep int, withFiltered bool, withFailures bool, allowOog bool) []c19Step {
 	scratch := c19NewReplica(u.conf)
 	n := 1 + c.Rng.Intn(maxLen)
 	var steps []c19Step
@@ -556,9 +619,14 @@ func c19RandomLog(c *Ctx, u c19Uni, maxLen int, nrep int, withFiltered bool, wit
 		} else {
 			o = c19RandomOp(c, u, withFiltered)
 		}
+		oog := false
 		if o.Pt != "" && !c19Guard(scratch.listedOf(o.Pt), o) {
-			c.Count("redrawn-outside-guard(F08)")
-			continue
+			if !allowOog || c.Rng.Intn(2) == 0 ||
+				(o.Kind == "updatemany" && (len(o.R1) != len(o.R2) || len(o.R1) == 0 || len(o.R1) > 2)) {
+				c.Count("redrawn-outside-guard(F08)")
+				continue
+			}
+			oog = true
 		}
 		bits := make([]bool, nrep)
 		for i := range bits {
@@ -576,21 +644,21 @@ func c19RandomLog(c *Ctx, u c19Uni, maxLen int, nrep int, withFiltered bool, wit
 		if o.Kind != "failnext" {
 			scratch.apply(o, false)
 		}
-		steps = append(steps, c19Step{o, bits})
+		steps = append(steps, c19Step{Op: o, Bits: bits, Oog: oog})
 	}
 	return steps
 }
 
 func init() {
 	register("C19", func(c *Ctx) {
-		c.Rule = "three real DistributedEnforcer replicas (persist always / never / seeded coin) over recording set-semantics adapters apply the same log of *Self calls. (0) fixed witnesses (F02 links and memoised g() results after ClearPolicySelf, a fully replayed log, a refused batch update); (1) exhaustive: every log of length <= 3 (thorough: also length 4 on the RBAC model for logs starting with an AddPoliciesSelf) over an alphabet of 25 (RBAC: p, p2, g, g2) / 23 (domain model) calls with repeated and overlapping batches on a 4-rule universe per type, observed after its last call; (2) seeded random logs of <= 12 calls (random batches with repetition, replayed entries, empty batches, unknown type), observed after every call; (3) single persisting replica with injected adapter failures; (4) single persisting replica with UpdateFilteredPoliciesSelf. Logs stay inside the guards (F08: update targets not listed). Distinct = (model, log); non-trivial = the log contains a call that changes memory or reports a non-empty result."
+		c.Rule = "three real DistributedEnforcer replicas (persist always / never / seeded coin) over recording set-semantics adapters apply the same log of *Self calls. (0) fixed witnesses (F02 links and memoised g() results after ClearPolicySelf, a fully replayed log, a refused batch update); (1) exhaustive: every log of length <= 3 (thorough: also length 4 on the RBAC model for logs starting with an AddPoliciesSelf) over an alphabet of 25 (RBAC: p, p2, g, g2) / 23 (domain model) calls with repeated and overlapping batches on a 4-rule universe per type, observed after its last call; (2) seeded random logs of <= 12 calls (random batches with repetition, replayed entries, empty batches, unknown type), observed after every call; (3) single persisting replica with injected adapter failures; (4) single persisting replica with UpdateFilteredPoliciesSelf. The direct predicates 'affected exact' and 'a repeated call reports nothing' stay inside the guards (F08: update targets not listed, no identity update); OUTSIDE the guard the model follows the code, so such calls are part of the correspondence stream (and of the guard-independent predicates: replicas agree, persist only when asked, failed persist leaves memory alone): (1b) from every in-guard state of the exhaustive part up to length 1 (length 2 behind an AddPoliciesSelf; thorough: 2) every identity update, update onto a listed rule, overlapping / swapping / identity batch update of g, p (and g2), followed by AddPoliciesSelf and RemovePoliciesSelf of the type's whole rule universe (they show what the index still knows), and a third of the random logs of (2) keep half of their out-of-guard draws (batches of <= 2 pairs) and go on behind them. Distinct = (model, log); non-trivial = the log contains a call that changes memory or reports a non-empty result."
 		unis := []c19Uni{c19RBAC(), c19Domain()}
 		// (0) fixed witnesses, observed after every call on the three replicas
 		for ui, u := range unis {
 			for wi, w := range c19Witnesses(u) {
 				steps := make([]c19Step, len(w))
 				for k, o := range w {
-					steps[k] = c19Step{o, []bool{true, false, (k+wi)%2 == 0}}
+					steps[k] = c19Step{Op: o, Bits: []bool{true, false, (k+wi)%2 == 0}}
 				}
 				id := fmt.Sprintf("c19.w%d.%d", ui, wi)
 				if c19Run(c, id, u, steps, 0, true, false) {
@@ -621,7 +689,7 @@ func init() {
 							return
 						}
 						scratch.apply(o, false)
-						steps[k] = c19Step{o, []bool{true, false, c.Rng.Intn(2) == 0}}
+						steps[k] = c19Step{Op: o, Bits: []bool{true, false, c.Rng.Intn(2) == 0}}
 					}
 					id := fmt.Sprintf("c19.x%d", ui)
 					for _, ai := range path {
@@ -645,6 +713,57 @@ func init() {
 			}
 			rec(nil, depth)
 		}
+		// (1b) calls outside the F08 guard, correspondence only: from every state reached by an
+		// in-guard log of the exhaustive alphabet (quick: length <= 1, and length 2 when the first
+		// call is an AddPoliciesSelf; thorough: length <= 2), every identity update, update onto a
+		// listed rule and overlapping / identity batch update of c19OogOps, followed by
+		// AddPoliciesSelf and RemovePoliciesSelf of the whole rule universe of that type (they show
+		// which rules the index still knows), observed from the out-of-guard call on
+		for ui, u := range unis {
+			al := u.alphabet()
+			oogs := c19OogOps(u)
+			var paths [][]int
+			paths = append(paths, nil)
+			for a := range al {
+				paths = append(paths, []int{a})
+				for b := range al {
+					if c.Thorough() || al[a].Kind == "add" {
+						paths = append(paths, []int{a, b})
+					}
+				}
+			}
+			for pi, path := range paths {
+				scratch := c19NewReplica(u.conf)
+				var prefix []c19Step
+				ok := true
+				for _, ai := range path {
+					o := al[ai]
+					if o.Pt != "" && !c19Guard(scratch.listedOf(o.Pt), o) {
+						ok = false
+						break
+					}
+					scratch.apply(o, false)
+					prefix = append(prefix, c19Step{Op: o, Bits: []bool{true, false, c.Rng.Intn(2) == 0}})
+				}
+				if !ok {
+					continue
+				}
+				for oi, o := range oogs {
+					if c19Guard(scratch.listedOf(o.Pt), o) {
+						continue // inside the guard in this state: the main stream covers it
+					}
+					all := u.rules[o.Pt]
+					steps := append(append([]c19Step(nil), prefix...),
+						c19Step{Op: o, Bits: []bool{true, false, c.Rng.Intn(2) == 0}, Oog: true},
+						c19Step{Op: c19Op{Kind: "add", Pt: o.Pt, R1: all}, Bits: []bool{true, false, true}},
+						c19Step{Op: c19Op{Kind: "remove", Pt: o.Pt, R1: all}, Bits: []bool{true, false, false}})
+					id := fmt.Sprintf("c19.o%d.%d.%d", ui, pi, oi)
+					if c19Run(c, id, u, steps, len(prefix), true, false) {
+						c.NonTrivial(id)
+					}
+				}
+			}
+		}
 		// (2) random logs, three replicas
 		nrand := 400
 		if c.Thorough() {
@@ -652,7 +771,7 @@ func init() {
 		}
 		for i := 0; i < nrand; i++ {
 			u := unis[i%2]
-			steps := c19RandomLog(c, u, 12, 3, false, false)
+			steps := c19RandomLog(c, u, 12, 3, false, false, i%3 == 2)
 			id := fmt.Sprintf("c19.r%d", i)
 			if c19Run(c, id, u, steps, 0, true, i >= 400) {
 				c.NonTrivial(id)
@@ -665,7 +784,7 @@ func init() {
 		}
 		for i := 0; i < nfail; i++ {
 			u := unis[i%2]
-			steps := c19RandomLog(c, u, 10, 1, false, true)
+			steps := c19RandomLog(c, u, 10, 1, false, true, false)
 			id := fmt.Sprintf("c19.f%d", i)
 			if c19Run(c, id, u, steps, 0, false, i >= 400) {
 				c.NonTrivial(id)
@@ -678,7 +797,7 @@ func init() {
 		}
 		for i := 0; i < nuf; i++ {
 			u := unis[i%2]
-			steps := c19RandomLog(c, u, 10, 1, true, false)
+			steps := c19RandomLog(c, u, 10, 1, true, false, false)
 			id := fmt.Sprintf("c19.u%d", i)
 			if c19Run(c, id, u, steps, 0, false, i >= 400) {
 				c.NonTrivial(id)
